@@ -43,7 +43,11 @@ RULES = {
 READERS = ["_read_mseed", "_read_saf", "_read_minishark", "_read_sac", "_read_gcf", "_read_peer"]
 
 
+_PROG: List[Optional[Program]] = [None]
+
+
 def run(ck: Checker, prog: Program, tier: str):
+    _PROG[0] = prog
     ck.guard(_arrange, ck, prog)
     ck.guard(_saf, ck, prog)
     ck.guard(_minishark, ck, prog)
@@ -606,21 +610,29 @@ def _counter_and_check(ck: Checker, f, q: str, lp: ast.For, npts_exec: str, idxn
     init_ok = init and unparse(init[-1].value) == "0" and (parent_of(init[-1]) is parent_of(lp))
     cs = [c for c in calls_in(parent_of(lp), "_check_npts") if c.lineno > lp.end_lineno]
     hdr = None
-    hname = unparse(cs[0].args[0]) if len(cs) == 1 and cs[0].args else None
+    # the comparison is symmetric: the two counts handed over (by position or keyword) are the row counter and the header count
+    two = None
+    if len(cs) == 1 and not any(isinstance(a_, ast.Starred) for a_ in cs[0].args) and not any(k.arg is None for k in cs[0].keywords):
+        bnd = bind_call(cs[0], _npts_params(_PROG[0]))
+        if len(bnd) == 2 and len(cs[0].args) + len(cs[0].keywords) == 2:
+            two = list(bnd.values())
+    others = [x for x in (two or []) if unparse(x) != idxname]
+    hname = unparse(others[0]) if two is not None and len(others) == 1 else None
+    hexpr = others[0] if hname is not None else None
     for st in own_nodes(f.node):
         if isinstance(st, ast.Assign) and unparse(st.targets[0]) == hname:
             hdr = _header_field(st)
-    if len(cs) == 1 and cs[0].args and hdr is None:
-        for c2 in calls_in(cs[0].args[0], "search"):
+    if hexpr is not None and hdr is None:
+        for c2 in calls_in(hexpr, "search"):
             if isinstance(c2.func, ast.Attribute) and isinstance(c2.func.value, ast.Name):
                 hdr = c2.func.value.id
-    okc = len(cs) == 1 and len(cs[0].args) == 2 and unparse(cs[0].args[1]) == idxname and hdr == npts_exec
+    okc = two is not None and hname is not None and hdr == npts_exec
     if res == {(1, 0)} and init_ok and okc:
         ck.ok("C07.R2", q, "_check_npts(npts_header, idx) with idx = number of rows parsed", detail=f"header count from {hdr}")
     else:
         ck.violation("C07.R2", q, "sample-count cross check",
                      f"the header's sample count is not compared with the reader's own row counter after the rows are read "
-                     f"(counter per row: {sorted(res)}, starts at 0: {bool(init_ok)}, call: {[unparse(a) for c in cs for a in c.args]})", loc=f.loc(lp))
+                     f"(counter per row: {sorted(res)}, starts at 0: {bool(init_ok)}, call: {[unparse(a) for a in (two or [])]})", loc=f.loc(lp))
     alloc = [st for st in own_nodes(f.node) if isinstance(st, ast.Assign) and hname is not None and hname in unparse(st.value) and isinstance(st.value, ast.Call) and call_name(st.value) in ("empty", "zeros")]
     if alloc:
         ck.ok("C07.R2", q, "array sized from the header count", nontrivial=False)
@@ -903,12 +915,34 @@ def _common(ck: Checker, prog: Program):
                     ck.violation("C07.R3", q, f"header field {name}", f"`{name}` is parsed from the header ({_header_field(st)}) but never used", loc=f.loc(st))
 
 
-def _check_npts_rule(ck: Checker, prog: Program):
+def _npts_params(prog: Program) -> List[str]:
     f = prog.func("data_wrangler._check_npts")
-    ifs = [st for st in f.node.body if isinstance(st, ast.If)]
-    good = len(ifs) == 1 and unparse(ifs[0].test) in (f"{f.params[0]} != {f.params[1]}", f"{f.params[1]} != {f.params[0]}") \
-        and any(isinstance(b, ast.Raise) for b in ifs[0].body)
-    if good:
+    ps = list(f.params) + [k for k in f.kwonly if k not in f.params]
+    if len(ps) != 2:
+        raise AnalysisError(f"{f.qualname}: expected two counts, found parameters {ps}")
+    return ps
+
+
+def _check_npts_rule(ck: Checker, prog: Program):
+    """_check_npts as a decision table: it raises exactly on the paths where its two counts differ (the comparison is symmetric,
+    so which parameter is the header count does not matter)."""
+    from ..pathtable import PathTable, literals, same_rel
+    f = prog.func("data_wrangler._check_npts")
+    a, b = [sp.Symbol(x, real=True) for x in _npts_params(prog)]
+    ne, eq = sp.Ne(a, b, evaluate=False), sp.Eq(a, b, evaluate=False)
+    leaves = PathTable(prog, f.module).leaves(f.node.body)
+    good = bool(leaves)
+    seen_raise = False
+    for l in leaves:
+        lits = literals(l)
+        differ = any(same_rel(x, ne) for x in lits)
+        same = any(same_rel(x, eq) for x in lits)
+        if l.exit == "raise":
+            seen_raise = True
+            good = good and differ and not same
+        else:
+            good = good and same and not differ
+    if good and seen_raise:
         ck.ok("C07.R2", f.qualname, "raises when header count != rows found")
     else:
         ck.violation("C07.R2", f.qualname, "count comparison", "_check_npts does not raise exactly when its two counts differ", loc=f.loc())
